@@ -121,7 +121,7 @@ func (blockFork *blockChainFork) triggerOnChain(chain *blockChain) bool {
 
 	if blockFork.current == blockFork.header {
 		chain.removeFromCommonAncestor(commonAncestor)
-		blockFork.current++
+		blockFork.current = commonAncestor.Height + 1
 	}
 	for blockFork.current <= blockFork.latestBlock.Height {
 		forkBlock := blockFork.getBlock(blockFork.current)
